@@ -33,6 +33,25 @@ func wantAugmented(augment string) bool {
 	return err == nil && v == 1
 }
 
+// abortFirst: the next request is preceded by one whose client disconnects mid-page
+var abortFirst bool
+
+type failingWriter struct {
+	*httptest.ResponseRecorder
+	left int
+}
+
+func (f *failingWriter) Write(p []byte) (int, error) {
+	if len(p) > f.left {
+		n := f.left
+		f.left = 0
+		f.ResponseRecorder.Write(p[:n])
+		return n, fmt.Errorf("client went away")
+	}
+	f.left -= len(p)
+	return f.ResponseRecorder.Write(p)
+}
+
 func emitHandler(id, method, maxmem, augment, similarity string) {
 	emitHandlerBig(id, method, maxmem, augment, similarity, 0)
 }
@@ -56,6 +75,12 @@ func emitHandlerBig(id, method, maxmem, augment, similarity string, dlen int) {
 				complete = "P"
 			}
 		}()
+		if abortFirst {
+			// a client that goes away in the middle of a page: its ResponseWriter fails after a few KiB
+			abortFirst = false
+			fw := &failingWriter{ResponseRecorder: httptest.NewRecorder(), left: 3000}
+			webstack.SnapshotHandler(fw, httptest.NewRequest("GET", "/debug", nil))
+		}
 		n0 := runtime.NumGoroutine()
 		req := httptest.NewRequest(method, "/debug?"+q.Encode(), nil)
 		w := httptest.NewRecorder()
@@ -85,6 +110,10 @@ func emitHandlerBig(id, method, maxmem, augment, similarity string, dlen int) {
 				sum += v
 			}
 			if h1 == 0 || !bytes.Contains(body, []byte("GOMAXPROCS")) || sum == 0 {
+				complete = "0"
+			}
+			// one page, from its first byte: nothing of an earlier response in front of it or inside it
+			if !bytes.HasPrefix(body, []byte("<!DOCTYPE html>")) || bytes.Count(body, []byte("<!DOCTYPE")) != 1 || bytes.Count(body, []byte(`id="content"`)) != 1 {
 				complete = "0"
 			}
 			if n0 == n1 && sum != n0 {
@@ -122,6 +151,7 @@ func opHandler(r *rand.Rand, n int, tier string) {
 	wg.Wait()
 	time.Sleep(2 * time.Millisecond)
 	for i := 0; i < n; i++ {
+		abortFirst = r.Intn(5) == 0
 		emitHandler(fmt.Sprintf("handler-%d", i), methods[r.Intn(len(methods))], maxmems[r.Intn(len(maxmems))], augments[r.Intn(len(augments))], sims[r.Intn(len(sims))])
 	}
 	// a process whose dump exceeds the initial 1 MiB buffer: the grow-and-retry capture
